@@ -37,6 +37,8 @@ class XRefNode(ConfigScalar(str)):
             if any(ref is node for node in visited):
                 raise ValueError(f'Circular reference detected while following a chain of references: {chain}')
             visited.append(ref)
+            if isinstance(ref, XRefNode):
+                ctx.check_safe(ref, chain[-1]) # intermediate references are followed here, not evaluated, so they have to be checked here
             curr = ref
         assert curr is not self
         return ctx.evaluate_node(curr, prefix=chain[-1])
